@@ -14,6 +14,20 @@ type TrimArgs struct {
 	NoPreserve        bool     // -p false: ignore every preservation mechanism
 	NoPreserveComment bool     // disable_preserve_comment
 	PreserveNames     []string // preserved_structs
+	MatchGoName       bool     // match_go_name: -m patterns and preserved_structs are compared with Go-converted names
+	PreserveFiles     []string // preserved_files: model paths of files whose structs are all kept
+}
+
+// GoNameOf is the documented conversion of match_go_name (snake_case -> PascalCase): the words between
+// underscores get an upper-case first letter and are joined.
+func GoNameOf(s string) string {
+	var b strings.Builder
+	for _, w := range strings.Split(s, "_") {
+		if w != "" {
+			b.WriteString(strings.ToUpper(w[:1]) + w[1:])
+		}
+	}
+	return b.String()
 }
 
 // Tri is a three-valued expectation.
@@ -139,7 +153,11 @@ func ExpectTrim(p *Program, a TrimArgs) *TrimExpect {
 				st := MustGo
 				for j := 0; j <= k; j++ {
 					for _, pt := range pats {
-						st = maxTri(st, matchMethod(pt, chain[j].Name+"."+fn.Name))
+						fname := fn.Name
+						if a.MatchGoName {
+							fname = GoNameOf(fname)
+						}
+						st = maxTri(st, matchMethod(pt, chain[j].Name+"."+fname))
 					}
 				}
 				funcTri[fn] = maxTri(funcTri[fn], st)
@@ -219,17 +237,41 @@ func ExpectTrim(p *Program, a TrimArgs) *TrimExpect {
 			}
 		}
 	}
-	preserved := func(d *Def) bool {
+	// preservedTri: MustStay for a struct-like the arguments preserve; Either for unions and exceptions of a
+	// preserved file (the documentation speaks of the file's "structs").
+	// how: "preserved" (comment), "preserved-name", "preserved-go-name" (the listed name equals the struct's name only
+	// after Go conversion), "preserved-file".
+	preservedHow := func(d *Def) (Tri, string) {
 		if a.NoPreserve || !d.Kind.IsStructLike() {
-			return false
+			return MustGo, ""
+		}
+		if d.Preserve && !a.NoPreserveComment {
+			return MustStay, "preserved"
+		}
+		name := d.Name
+		if a.MatchGoName {
+			name = GoNameOf(name)
 		}
 		for _, n := range a.PreserveNames {
-			if n == d.Name {
-				return true
+			if n == name {
+				if n != d.Name {
+					return MustStay, "preserved-go-name"
+				}
+				return MustStay, "preserved-name"
 			}
 		}
-		return d.Preserve && !a.NoPreserveComment
+		for _, pf := range a.PreserveFiles {
+			if pf == d.File.Path {
+				if d.Kind == KStruct {
+					return MustStay, "preserved-file"
+				}
+				return Either, "preserved-file"
+			}
+		}
+		return MustGo, ""
 	}
+	preservedTri := func(d *Def) Tri { t, _ := preservedHow(d); return t }
+	preserved := func(d *Def) bool { return preservedTri(d) == MustStay }
 	both := func(do func(set map[*Def]bool, record bool)) {
 		do(lower, true)
 		do(upper, false)
@@ -251,13 +293,20 @@ func ExpectTrim(p *Program, a TrimArgs) *TrimExpect {
 			case d.Kind == KEnum:
 				both(func(set map[*Def]bool, rec bool) { mark(set, d, "always-kept", "enum", d.File, rec) })
 			case preserved(d):
+				_, how := preservedHow(d)
 				both(func(set map[*Def]bool, rec bool) {
-					if mark(set, d, "preserved", "itself", d.File, rec) {
+					if mark(set, d, how, "itself", d.File, rec) {
 						for _, fl := range d.Fields {
-							reach(set, fl.Type, "preserved", "field-type", d.File, rec)
+							reach(set, fl.Type, how, "field-type", d.File, rec)
 						}
 					}
 				})
+			case preservedTri(d) == Either:
+				if mark(upper, d, "preserved", "itself", d.File, false) {
+					for _, fl := range d.Fields {
+						reach(upper, fl.Type, "preserved", "field-type", d.File, false)
+					}
+				}
 			case d.Kind == KService:
 				for _, fn := range d.Funcs {
 					st := funcTri[fn]
@@ -312,7 +361,7 @@ func ExpectTrim(p *Program, a TrimArgs) *TrimExpect {
 		}
 		seen[f] = true
 		for _, d := range f.Defs {
-			if d.Kind == KTypedef || d.Kind == KConst || d.Kind == KEnum || preserved(d) {
+			if d.Kind == KTypedef || d.Kind == KConst || d.Kind == KEnum || preservedTri(d) != MustGo {
 				return true
 			}
 		}
